@@ -8,9 +8,11 @@
    key below it, as a parsed file can have: vendor files whose section holds only commented-out
    defaults).  The object keeps such a section in its section list, but the merge core looks at
    entries only (HasGroup scans b, not the list), so the expectation does not depend on them:
-   an override's keys for a section the base only announces still arrive.                   *)
+   an override's keys for a section the base only announces still arrive.
+   NoV = TRUE: an entry may have NO value (a key alone on its line, `k=`, a setter with an empty text): the observable
+   value is the empty text, and such an entry of the override replaces the base's value like any other.   *)
 EXTENDS Merge, TLC, Json
-CONSTANTS MaxLen, Export, Hdr
+CONSTANTS MaxLen, Export, Hdr, NoV
 VARIABLES b, o, phase, bh, oh
 vars == <<b, o, phase, bh, oh>>
 
@@ -22,10 +24,10 @@ OVal(i) == <<111, 48 + i>>
 HdrSets == IF Hdr THEN SUBSET {<<65>>, <<66>>} ELSE {{}}
 Init == b = <<>> /\ o = <<>> /\ phase = "b" /\ bh \in HdrSets /\ oh \in HdrSets
 GrowB == /\ phase = "b" /\ Len(b) < MaxLen
-         /\ \E g \in Gs, k \in Ks : ~Defines(b, g, k) /\ b' = Append(b, Ent(g, k, BVal(Len(b) + 1)))
+         /\ \E g \in Gs, k \in Ks, v \in {BVal(Len(b) + 1)} \cup (IF NoV THEN {<<>>} ELSE {}) : ~Defines(b, g, k) /\ b' = Append(b, Ent(g, k, v))
          /\ UNCHANGED <<o, phase, bh, oh>>
 GrowO == /\ Len(o) < MaxLen
-         /\ \E g \in Gs, k \in Ks : ~Defines(o, g, k) /\ o' = Append(o, Ent(g, k, OVal(Len(o) + 1)))
+         /\ \E g \in Gs, k \in Ks, v \in {OVal(Len(o) + 1)} \cup (IF NoV THEN {<<>>} ELSE {}) : ~Defines(o, g, k) /\ o' = Append(o, Ent(g, k, v))
          /\ phase' = "o" /\ UNCHANGED <<b, bh, oh>>
 Next == GrowB \/ GrowO
 Spec == Init /\ [][Next]_vars
